@@ -13,6 +13,7 @@ import sys
 VERIF = os.path.dirname(os.path.dirname(os.path.abspath(__file__)))
 REPO = os.environ.get('VERIF_REPO', '/repo')
 DEPS = os.path.join(VERIF, '.deps')
+OUT = os.environ.get('VERIF_OUT', VERIF)    # evidence/replays root (redirected for mutant runs)
 
 
 def bootstrap():
